@@ -18,7 +18,7 @@ func init() {
 	register(&Property{
 		ID:          "C09",
 		Run:         runC09,
-		Explanation: "Decides the structural clauses that keep plugin reply shapes from crashing or wedging the engine: (R1) at every processor call boundary both 'more results than records' and 'fewer results than records' are diverted (refused or padded) before any positional use of the reply; (R2) the v1 destination acker indexes an ack batch only on an edge where that batch is known non-empty; (R3 = C08.R6) unknown / nil result kinds are refused; (R4) the retry recursion is entered only below the stall and attempt bounds, both of which return fatal coded errors; (R5) every call into a built-in connector implementation goes through the panic sandbox (tabled exception: the detached Run loop), whose goroutine recovers and answers on every path; (R6) the reconfigure hand-off answers exactly once on a buffered channel and the deferred-ack escalation never blocks without a cancellation arm; (R7) error records crossing the standalone plugin boundary are built with a non-nil error.",
+		Explanation: "Decides the structural clauses that keep plugin reply shapes from crashing or wedging the engine: (R1) at every processor call boundary both 'more results than records' and 'fewer results than records' are diverted (refused or padded) before any positional use of the reply; (R2) the v1 destination acker indexes an ack batch only on an edge where that batch is known non-empty; (R3 = C08.R6) unknown / nil result kinds are refused; (R4) the retry recursion is entered only below the stall and attempt bounds, both of which return fatal coded errors; (R5) every call into a built-in connector implementation goes through the panic sandbox (tabled exception: the detached Run loop), whose goroutine recovers and answers on every path; (R6) the reconfigure hand-off answers exactly once on a buffered channel and the deferred-ack escalation never blocks without a cancellation arm; (R7) error records crossing the standalone plugin boundary are built with a non-nil error. Rules added later (after independent seeded changes and defect hunts) are not all enumerated here: every armed rule is listed with its description, kind and instance count under coverage.rules.",
 		NotDecided:  []string{"index arithmetic over plugin-controlled values in general", "hangs in general (liveness)", "panics inside a built-in connector's own detached Run loop"},
 		Assumptions: []string{"a deferred recover() in the same goroutine catches every panic of the sandboxed call"},
 	})
